@@ -16,13 +16,14 @@ GATE = ["kutil/xkg_gate_test.go"]
 CPU = ["kutil/xkg_cpu_test.go"]
 PAGE = 4096
 
-MODELS = [  # (part, module, quick cfg, full cfg, design mutants (the first is run in the quick tier too))
-    ("pw", "MCPrefixWriter", "MCPrefixWriterQuick", "MCPrefixWriterFull",
+MODELS = [  # (part, module, quick cfgs, thorough cfgs, design mutants (the first is run in the quick tier too), mutant cfg prefix)
+    ("pw", "MCPrefixWriter", ["MCPrefixWriterQuick"], ["MCPrefixWriterQuick", "MCPrefixWriterWide"],
      ["EagerAtChunkEnd", "PrefixEveryWrite", "CountsPrefix", "BapFromLen", "ErrBeforePrefix", "EmptyWritePrefix"], "MCPrefixWriterBug_"),
-    ("kp", "MCKPanic", "MCKPanicQuick", "MCKPanicFull", ["StrFallsThrough", "ErrStaleMessage", "HaltFirst", "ModuleOmitted"], "MCKPanicBug_"),
-    ("km", "KMemModel", "MCKMemQuick", "MCKMemFull", ["NoTail", "LenPlusOne", "ForwardCopy", "SwapArgs", "ZeroTouches"], "MCKMemBug_"),
-    ("kg", "KGateModel", "MCKGateQuick", "MCKGateFull", ["DelimiterThree", "FirstWins", "IstDropped", "SlotOfPrevious"], "MCKGateBug_"),
-    ("kc", "MCKCpu", "MCKCpu", "MCKCpu", ["OrderBCD", "OnlyEbx", "AnyOf", "Leaf1"], "MCKCpuBug_"),
+    ("kp", "MCKPanic", ["MCKPanicQuick"], ["MCKPanicQuick", "MCKPanicDeep"],
+     ["StrFallsThrough", "ErrStaleMessage", "HaltFirst", "ModuleOmitted"], "MCKPanicBug_"),
+    ("km", "KMemModel", ["MCKMemQuick"], ["MCKMemFull"], ["NoTail", "LenPlusOne", "ForwardCopy", "SwapArgs", "ZeroTouches"], "MCKMemBug_"),
+    ("kg", "KGateModel", ["MCKGateQuick"], ["MCKGateFull"], ["DelimiterThree", "FirstWins", "IstDropped", "SlotOfPrevious"], "MCKGateBug_"),
+    ("kc", "MCKCpu", ["MCKCpu"], ["MCKCpu"], ["OrderBCD", "OnlyEbx", "AnyOf", "Leaf1"], "MCKCpuBug_"),
 ]
 
 DEVIATIONS = [
@@ -51,17 +52,18 @@ def total(sg):
     return sum(s[1] for s in sg)
 
 
-def unwrap(path):
-    """TLC wrote one JSON *string* per line (CSVWrite of ToJson); several workers may interleave whole lines only."""
+def unwrap(paths):
+    """TLC wrote one JSON *string* per line (CSVWrite of ToJson); the same case can come from two scopes: keep it once"""
     seen, out = set(), []
-    if not os.path.exists(path):
-        return out
-    with open(path) as f:
-        for l in f:
-            l = l.strip()
-            if l and l not in seen:
-                seen.add(l)
-                out.append(json.loads(json.loads(l)))
+    for path in paths:
+        if not os.path.exists(path):
+            continue
+        with open(path) as f:
+            for l in f:
+                l = l.strip()
+                if l and l not in seen:
+                    seen.add(l)
+                    out.append(json.loads(json.loads(l)))
     return out
 
 
@@ -110,12 +112,18 @@ def mem_variants(c, model_n, rnd, everything):
 
 
 # ------------------------------------------------------------------ legs
-def run_models(ctx, d, q, paths):
-    jobs = []
-    with concurrent.futures.ThreadPoolExecutor(max_workers=3 if q else 4) as ex:
-        for part, module, qc, fc, bugs, bugprefix in MODELS:
-            jobs.append(ex.submit(ctx.model_check, d, module, qc if q else fc, workers=2 if q else 4, timeout=1500,
-                                  env={"CASES": paths[part]}, coverage=not q, name="M-" + part))
+def run_models(ctx, d, q):
+    """leg M.  Returns {part: [case files]} (each TLC run emits into a file of its own)."""
+    jobs, files = [], {}
+    with concurrent.futures.ThreadPoolExecutor(max_workers=3) as ex:
+        for part, module, qcs, fcs, bugs, bugprefix in MODELS:
+            for cfg in (qcs if q else fcs):
+                cf = os.path.join(ctx.work, "xk_cases_%s_%s.ndjson" % (part, cfg))
+                files.setdefault(part, []).append(cf)
+                # expression-level coverage doubles the run time: it is taken on the small models, the two large
+                # ones (PrefixWriter, Panic) were checked for unreached branches with -coverage 1 when they were written
+                jobs.append(ex.submit(ctx.model_check, d, module, cfg, workers=2 if q else 4, timeout=1500, env={"CASES": cf},
+                                      coverage=(not q) and part in ("km", "kg", "kc"), name="M-%s-%s" % (part, cfg)))
             for b in (bugs[:1] if q else bugs):
                 jobs.append(ex.submit(ctx.expect_model_violation, d, module, bugprefix + b, workers=1, timeout=600,
                                       env={"CASES": os.devnull}))
@@ -123,6 +131,7 @@ def run_models(ctx, d, q, paths):
             r = j.result()
             if getattr(r, "coverage_zero", None):
                 raise vlib.Broken("an action of the design model was never taken (vacuous scope): %s" % r.coverage_zero[:3])
+    return files
 
 
 def go(ctx, pkg, files, test, env, intent=None, trace=None):
@@ -246,15 +255,15 @@ def run(ctx):
     for n in DEVIATIONS:
         ctx.note(n)
     d = ctx.spec_dir("kutil")
-    paths = {p: os.path.join(ctx.work, "xk_cases_%s.ndjson" % p) for p in ("pw", "kp", "km", "kg", "kc")}
     rnd = random.Random(ctx.seed)
 
     # ---- leg M: design models satisfy the monitors on every behaviour of the scope, design mutants are rejected; emits the cases
-    run_models(ctx, d, q, paths)
+    files = run_models(ctx, d, q)
+    paths = files
 
     # ---- leg G: replay the emitted cases on the real packages
-    emitted = {p: unwrap(paths[p]) for p in paths}
-    sel = {"pw": pick(emitted["pw"], 2500 if q else 200000, ctx.seed), "kp": pick(emitted["kp"], 350 if q else 0, ctx.seed),
+    emitted = {p: unwrap(files[p]) for p in files}
+    sel = {"pw": pick(emitted["pw"], 2500 if q else 0, ctx.seed), "kp": pick(emitted["kp"], 350 if q else 0, ctx.seed),
            "km": emitted["km"], "kg": pick(emitted["kg"], 300 if q else 0, ctx.seed), "kc": pick(emitted["kc"], 600 if q else 0, ctx.seed)}
     model_n = 10 if q else 13
     memcases = [v for c in sel["km"] for v in mem_variants(c, model_n, rnd, not q)]
@@ -274,10 +283,10 @@ def run(ctx):
     go(ctx, "gate", GATE, "TestVerifXkgCases", {"CASES": f_kg, "TRACE_OUT": t["g_kg"]}, "xkg_intent.json", t["g_kg"])
     go(ctx, "cpu", CPU, "TestVerifXkgCpuCases", {"CASES": f_kc, "TRACE_OUT": t["g_kc"]})
     # ---- leg T: seeded random cases at real scale
-    go(ctx, "kfmt", KFMT, "TestVerifXkfRandom", {"NCASES": 150 if q else 6000, "TRACE_OUT": t["t_kf"]})
-    go(ctx, "", MEM, "TestVerifXkmRandom", {"NCASES": 500 if q else 20000, "TRACE_OUT": t["t_km"]}, "xkm_intent.json", t["t_km"])
-    go(ctx, "gate", GATE, "TestVerifXkgRandom", {"NCASES": 60 if q else 3000, "TRACE_OUT": t["t_kg"]}, "xkg_intent.json", t["t_kg"])
-    go(ctx, "cpu", CPU, "TestVerifXkgCpuRandom", {"NCASES": 400 if q else 20000, "TRACE_OUT": t["t_kc"]})
+    go(ctx, "kfmt", KFMT, "TestVerifXkfRandom", {"NCASES": 150 if q else 3000, "TRACE_OUT": t["t_kf"]})
+    go(ctx, "", MEM, "TestVerifXkmRandom", {"NCASES": 500 if q else 8000, "TRACE_OUT": t["t_km"]}, "xkm_intent.json", t["t_km"])
+    go(ctx, "gate", GATE, "TestVerifXkgRandom", {"NCASES": 60 if q else 1500, "TRACE_OUT": t["t_kg"]}, "xkg_intent.json", t["t_kg"])
+    go(ctx, "cpu", CPU, "TestVerifXkgCpuRandom", {"NCASES": 400 if q else 10000, "TRACE_OUT": t["t_kc"]})
 
     # ---- leg V: the TLA+ monitor judges every recorded event
     judge(ctx, [("G-kfmt", t["g_kf"]), ("G-mem", t["g_km"]), ("G-gate", t["g_kg"]), ("G-cpu", t["g_kc"]),
